@@ -3,6 +3,10 @@
 P="$1"; shift
 git -C /repo apply "$P" || { echo "patch does not apply"; exit 2; }
 for c in "$@"; do
+  # the evidence file of the unchanged tree must survive a run against a seeded change
+  cp /verif/evidence/$c.json /tmp/try_$c.evidence.keep 2>/dev/null
   /verif/check "$c" --tier quick > /tmp/try_$c.log 2>&1; echo "$c exit=$? $(grep -c '^VIOLATION' /tmp/try_$c.log) violations, $(grep -c '^KNOWN' /tmp/try_$c.log) known"; grep '^  formula' /tmp/try_$c.log | head -3 | cut -c1-300
+  [ -f /tmp/try_$c.evidence.keep ] && mv /tmp/try_$c.evidence.keep /verif/evidence/$c.json
+  rm -f /verif/replays/${c}_*.json
 done
 git -C /repo checkout -- . ; git -C /repo status --short | head -3
